@@ -490,8 +490,21 @@ func (pv *Prover) phiFacts(fs *factSet, a Atom, phi *ssa.Phi) {
 		if !loop.Blocks[pred] {
 			c, ok := ConstInt(e)
 			if !ok {
-				okLow = false
 				evenStep = false
+				// a non-constant initial value that is >= 0 by the intrinsic facts of its atoms (lengths, sums of lengths)
+				f := pv.Form(e)
+				if _, self := f.T[a]; !self {
+					sub := &factSet{parity: map[Atom]int64{}, seen: map[Atom]bool{a: true}}
+					for b := range f.T {
+						pv.intrinsic(sub, b)
+					}
+					if refute(append(append([]Lin{}, sub.cons...), f.Plus(1)), sub.parity) {
+						// f <= -1 refuted: f >= 0
+						lows = append(lows, 0)
+						continue
+					}
+				}
+				okLow = false
 				continue
 			}
 			lows = append(lows, c)
